@@ -420,7 +420,7 @@ package flows
 //@ func (a *AggchainProverFlow) GenerateAggchainProof (a, ctx, lastProvenBlock, toBlock, certBuildParams)
 //@   props C09 C02
 //@   requires a != nil && a.log != nil && a.l1InfoTreeDataQuerier != nil && a.gerQuerier != nil && a.aggchainProofClient != nil && a.baseFlow != nil && typeIs(a.baseFlow, *baseFlow) && certBuildParams != nil
-//@   requires typeIs(a.l1InfoTreeDataQuerier, *query.L1InfoTreeDataQuerier) && cast(a.l1InfoTreeDataQuerier, *query.L1InfoTreeDataQuerier) != nil && cast(a.l1InfoTreeDataQuerier, *query.L1InfoTreeDataQuerier).l1InfoTreeSyncer != nil
+//@   requires typeIs(a.l1InfoTreeDataQuerier, *query.L1InfoTreeDataQuerier) && cast(a.l1InfoTreeDataQuerier, *query.L1InfoTreeDataQuerier) != nil && cast(a.l1InfoTreeDataQuerier, *query.L1InfoTreeDataQuerier).l1InfoTreeSyncer != nil && cast(a.l1InfoTreeDataQuerier, *query.L1InfoTreeDataQuerier).l1Client != nil
 //@   requires certBuildParams.CertificateType == types.CertificateTypeOptimistic ==> a.optimisticSigner != nil
 //@   requires certBuildParams.CertificateType == types.CertificateTypeOptimistic ==> (cast(a.baseFlow, *baseFlow) != nil && cast(a.baseFlow, *baseFlow).l2BridgeQuerier != nil && cast(a.baseFlow, *baseFlow).lerQuerier != nil && cast(a.baseFlow, *baseFlow).storage != nil && (certBuildParams.LastSentCertificate != nil ==> certBuildParams.LastSentCertificate.Height < 18446744073709551615))
 //@   requires forall(k, 0, len(certBuildParams.Claims), certBuildParams.Claims[k].GlobalIndex != nil)
@@ -439,7 +439,7 @@ package flows
 //@ func (a *AggchainProverFlow) verifyBuildParamsAndGenerateProof (a, ctx, buildParams)
 //@   props C02 C09
 //@   requires a != nil && a.log != nil && a.l1InfoTreeDataQuerier != nil && a.gerQuerier != nil && a.aggchainProofClient != nil && a.baseFlow != nil && typeIs(a.baseFlow, *baseFlow) && cast(a.baseFlow, *baseFlow) != nil && buildParams != nil
-//@   requires typeIs(a.l1InfoTreeDataQuerier, *query.L1InfoTreeDataQuerier) && cast(a.l1InfoTreeDataQuerier, *query.L1InfoTreeDataQuerier) != nil && cast(a.l1InfoTreeDataQuerier, *query.L1InfoTreeDataQuerier).l1InfoTreeSyncer != nil
+//@   requires typeIs(a.l1InfoTreeDataQuerier, *query.L1InfoTreeDataQuerier) && cast(a.l1InfoTreeDataQuerier, *query.L1InfoTreeDataQuerier) != nil && cast(a.l1InfoTreeDataQuerier, *query.L1InfoTreeDataQuerier).l1InfoTreeSyncer != nil && cast(a.l1InfoTreeDataQuerier, *query.L1InfoTreeDataQuerier).l1Client != nil
 //@   requires buildParams.CertificateType == types.CertificateTypeOptimistic ==> a.optimisticSigner != nil
 //@   requires buildParams.CertificateType == types.CertificateTypeOptimistic ==> (cast(a.baseFlow, *baseFlow) != nil && cast(a.baseFlow, *baseFlow).l2BridgeQuerier != nil && cast(a.baseFlow, *baseFlow).lerQuerier != nil && cast(a.baseFlow, *baseFlow).storage != nil && (buildParams.LastSentCertificate != nil ==> buildParams.LastSentCertificate.Height < 18446744073709551615))
 //@   requires forall(k, 0, len(buildParams.Claims), buildParams.Claims[k].GlobalIndex != nil)
@@ -471,7 +471,7 @@ package flows
 //@   props C02 C09
 //@   requires a != nil && a.log != nil && a.storage != nil && a.optimisticModeQuerier != nil && a.l2BridgeQuerier != nil && a.l1InfoTreeDataQuerier != nil && a.gerQuerier != nil && a.aggchainProofClient != nil && a.optimisticSigner != nil
 //@   requires a.baseFlow != nil && typeIs(a.baseFlow, *baseFlow) && cast(a.baseFlow, *baseFlow) != nil && cast(a.baseFlow, *baseFlow).l2BridgeQuerier != nil && cast(a.baseFlow, *baseFlow).storage != nil && cast(a.baseFlow, *baseFlow).log != nil
-//@   requires typeIs(a.l1InfoTreeDataQuerier, *query.L1InfoTreeDataQuerier) && cast(a.l1InfoTreeDataQuerier, *query.L1InfoTreeDataQuerier) != nil && cast(a.l1InfoTreeDataQuerier, *query.L1InfoTreeDataQuerier).l1InfoTreeSyncer != nil
+//@   requires typeIs(a.l1InfoTreeDataQuerier, *query.L1InfoTreeDataQuerier) && cast(a.l1InfoTreeDataQuerier, *query.L1InfoTreeDataQuerier) != nil && cast(a.l1InfoTreeDataQuerier, *query.L1InfoTreeDataQuerier).l1InfoTreeSyncer != nil && cast(a.l1InfoTreeDataQuerier, *query.L1InfoTreeDataQuerier).l1Client != nil
 //@   requires storedLastCert != nil ==> (storedLastCert.RetryCount < 9223372036854775807 && storedLastCert.FromBlock <= storedLastCert.ToBlock)
 //@   requires cast(a.baseFlow, *baseFlow).lerQuerier != nil && (storedLastCert != nil ==> storedLastCert.Height < 18446744073709551615)
 //@   requires cast(a.baseFlow, *baseFlow).cfg.StartL2Block < 18446744073709551615 && l2Synced < 9223372036854775808
